@@ -35,6 +35,11 @@ fn first_op_mut(doc: &mut MOpDoc) -> Option<&mut MOperation> {
 }
 
 fn token_starts(text: &str, ext_import: bool) -> Option<Vec<LTok>> {
+    if ext_import {
+        if let Ok((_, toks)) = refparse::parse_op_doc_toks(text) {
+            return Some(toks);
+        }
+    }
     refparse::lex(text, ext_import).ok()
 }
 
